@@ -120,6 +120,13 @@ def split_guard(db, ctx):
     mode_lid = param_roles(f, {"mode": lambda t: t.endswith("Mode")}).get("mode")
     same_mode = bool(ns) and bool(sp) and is_local(call_args(ns[0])[1], mode_lid) and is_local(call_args(sp[0])[1], mode_lid)
     ctx.ob("same-mode", same_mode, "num_splits and split receive the same `mode`: %s" % same_mode, fn=f)
+    # the units are loaded with the caller's field subset, un-narrowed: a B unit that itself declares A units must keep its split
+    # list (refining a mode-B result on demand must agree with mode A)
+    sub_lid = param_roles(f, {"subset": lambda t: t.endswith("InfoSubset")}).get("subset")
+    from ..db import deref_all as _da
+    arg = _da(call_args(sp[0])[3]) if sp and len(call_args(sp[0])) > 3 else None
+    whole = arg is not None and is_local(arg, sub_lid)
+    ctx.ob("units-keep-caller-subset", whole, "ResultNode::split(.., subset = `%s`, ..): the caller's subset itself: %s" % (render(arg) if arg is not None else None, whole), fn=f)
 
 
 def ev_mode(m):
@@ -369,3 +376,11 @@ def field_source_reeval(db, ctx):
 def order_reeval(db, ctx):
     from . import C14
     C14.order(db, ctx)
+
+
+@rule("C09.merged-no-units", "a token produced by merging (numerals, katakana) declares no units of its own: the merged word info is completed from "
+                             "Default::default(), never from a part — a part's split list would be applied to the merged range by A/B splitting "
+                             "(re-evaluation of C14.merged-fields)")
+def merged_no_units(db, ctx):
+    from . import C14
+    C14.merged_fields(db, ctx)
